@@ -516,3 +516,326 @@ def rule_K5_rust(ctx, F):
         ctx.ob(ok, "helper:%s::%s" % (mod, setter), fn.loc, "%s is %s ; required lane i = argument i" % (setter, show(got)[:140]))
     if F.cfg_flavour() in ("pure",):
         ctx.floor("Rust transposed-state initialisers", n, 3)
+
+
+# ------------------------------------------------------------------ F8: per-kernel block-flag schedule ----
+RUST_FLAG_KERNELS = ["portable::hash1", "sse2::hash1", "sse41::hash1", "sse2::hash4", "sse41::hash4", "avx2::hash8"]
+
+
+def _is_or_of(e, x, y):
+    return e[0] == "bin" and e[1] == "BitOr" and ((e[2] == x and e[3] == y) or (e[2] == y and e[3] == x))
+
+
+def rule_F8_rust(ctx, F):
+    """block_flags inside every hash1/hashN copy: flags|flags_start before the first block, |= flags_end under the
+    last-block test (and only there, keeping what was accumulated), reset to flags after each compression"""
+    n = 0
+    for name in RUST_FLAG_KERNELS:
+        fn = F.fn(name)
+        if fn is None:
+            continue
+        n += 1
+        inst = "block-flags:%s" % name
+        ls = [l for l in range(len(fn.locals)) if fn.names.get(l) == "block_flags"]
+        if len(ls) != 1:
+            ctx.ob(False, inst, fn.loc, "no single local named block_flags")
+            continue
+        l = ls[0]
+        argn = {fn.names.get(i): ("arg", i, fn.names.get(i)) for i in range(1, fn.argc + 1)}
+        FL, ST, EN = argn.get("flags"), argn.get("flags_start"), argn.get("flags_end")
+        PHI = ("phi", l, "block_flags")
+        defs = local_defs_with_guards(fn, l)
+        kinds = {}
+        bad = None
+        for b, gs, e in defs:
+            if _is_or_of(e, FL, ST):
+                kinds.setdefault("init", []).append((b, gs))
+            elif e == FL:
+                kinds.setdefault("reset", []).append((b, gs))
+            elif _is_or_of(e, PHI, EN):
+                kinds.setdefault("end", []).append((b, gs))
+            else:
+                bad = "block_flags is assigned %s ; allowed: flags | flags_start (before the loop), block_flags | flags_end (last block), flags (after a compression)" % show(e)[:90]
+        uses = []
+        for b, t in fn.calls():
+            ex = val(fn.expr_call(t))
+            if find_sub(ex, PHI) is not None:
+                uses.append((b, ex))
+        if bad is None and not (len(kinds.get("init", [])) == 1 and len(kinds.get("reset", [])) == 1 and len(kinds.get("end", [])) == 1):
+            bad = "definitions of block_flags: %s ; required exactly one each of init / end / reset" % {k: len(v) for k, v in kinds.items()}
+        if bad is None and len(uses) != 1:
+            bad = "%d use sites of block_flags (compression / set1), expected 1" % len(uses)
+        if bad is None:
+            ub = uses[0][0]
+            eb, egs = kinds["end"][0]
+            rb = kinds["reset"][0][0]
+            ib = kinds["init"][0][0]
+            dom = fn.dominators()
+            # last-block test idioms of the repository
+            last = None
+            for c, tr in egs:
+                if tr is True and c[0] == "bin" and c[1] == "Eq":
+                    a, bb = c[2], c[3]
+                    for x, y in ((a, bb), (bb, a)):
+                        if x[0] == "call" and x[1].endswith("len") and y == ("const", "BLOCK_LEN", 64):
+                            last = "slice.len() == BLOCK_LEN"
+                        if x[0] == "bin" and x[1] == "Add" and x[3][0] == "const" and x[3][2] == 1 and find_sub(x[2], ("call", W(), W())) is not None and "next" in show(x[2]):
+                            last = "block + 1 == blocks"
+            if last is None:
+                bad = "|= flags_end is not under a recognised last-block test (guards: %s)" % [show(c)[:50] for c, t in egs][-2:]
+            elif not (ub in dom.get(rb, set()) and ub not in dom.get(eb, set()) and ib in dom.get(ub, set())):
+                bad = "order: init must dominate the use, the use must dominate the reset to `flags`, the flags_end update must come before the use"
+            elif not fn.paths_avoiding(eb, ub, {rb}):
+                bad = "the flags_end update does not reach the compression without being reset"
+        ctx.ob(bad is None, inst, fn.loc, bad or "init flags|flags_start ; last block (%s) |= flags_end ; reset to flags after the compression" % last)
+    if F.cfg_flavour() == "pure":
+        ctx.floor("Rust kernels with a block-flag schedule", n, 6)
+    else:
+        ctx.floor("Rust kernels with a block-flag schedule", n, 1)
+
+
+C_FLAG_KERNELS = [("c/blake3_portable.c", (), "hash_one_portable"), ("c/blake3_sse2.c", ("-msse2",), "hash_one_sse2"), ("c/blake3_sse2.c", ("-msse2",), "blake3_hash4_sse2"),
+                  ("c/blake3_sse41.c", ("-msse4.1",), "hash_one_sse41"), ("c/blake3_sse41.c", ("-msse4.1",), "blake3_hash4_sse41"),
+                  ("c/blake3_avx2.c", ("-mavx2",), "blake3_hash8_avx2"),
+                  ("c/blake3_avx512.c", ("-mavx512f", "-mavx512vl"), "hash_one_avx512"), ("c/blake3_avx512.c", ("-mavx512f", "-mavx512vl"), "blake3_hash4_avx512"),
+                  ("c/blake3_avx512.c", ("-mavx512f", "-mavx512vl"), "blake3_hash8_avx512"), ("c/blake3_avx512.c", ("-mavx512f", "-mavx512vl"), "blake3_hash16_avx512")]
+
+
+def rule_F8_c(ctx):
+    def V(n):
+        return lambda e: isinstance(e, tuple) and e[0] == "var" and e[1] == n
+
+    def strip(e):
+        while isinstance(e, tuple) and e[0] == "cast":
+            e = e[1]
+        return e
+    for path, mflags, fname in C_FLAG_KERNELS:
+        t = _rc.tu(path, (), extra_args=mflags, filt=fname)
+        f = t.funcs.get(fname)
+        if f is None:
+            raise MissingAnchor("%s in %s" % (fname, path))
+        inst = "block-flags:%s" % fname
+        where = "%s:%s" % (path, f["line"])
+        events = []     # (kind, depth-path) in program order
+
+        def walk(stmts, ctxpath):
+            for s in stmts:
+                if s[0] == "decl" and s[1] == "block_flags":
+                    e = strip(s[3])
+                    ok = e and e[0] == "bin" and e[1] == "|" and {strip(e[2])[1], strip(e[3])[1]} == {"flags", "flags_start"}
+                    events.append(("init" if ok else "bad:decl %s" % _cshow(s[3]), ctxpath))
+                elif s[0] == "assign" and s[2][0] == "var" and s[2][1] == "block_flags":
+                    r = strip(s[3])
+                    if s[1] == "|=" and V("flags_end")(r):
+                        events.append(("end", ctxpath))
+                    elif s[1] == "=" and r[0] == "bin" and r[1] == "|" and {_cshow(strip(r[2])), _cshow(strip(r[3]))} == {"block_flags", "flags_end"}:
+                        events.append(("end", ctxpath))
+                    elif s[1] == "=" and V("flags")(r):
+                        events.append(("reset", ctxpath))
+                    else:
+                        events.append(("bad:block_flags %s %s" % (s[1], _cshow(s[3])), ctxpath))
+                else:
+                    used = []
+                    for x in s:
+                        if isinstance(x, tuple):
+                            import cast as _cast
+                            _cast.walk_expr(x, lambda y: used.append(1) if y[0] == "var" and y[1] == "block_flags" else None)
+                    if used and s[0] != "if" and s[0] != "loop":
+                        events.append(("use", ctxpath))
+                if s[0] == "if":
+                    subs = [x for x in s if isinstance(x, list)]
+                    for k, sub in enumerate(subs):
+                        walk(sub, ctxpath + (("if", _cshow_cond(s[1]), k),))
+                elif s[0] == "loop":
+                    subs = [x for x in s if isinstance(x, list)]
+                    walk(subs[0] if subs else [], ctxpath + (("loop", _cshow_cond(s[2])),))
+        walk(f["body"], ())
+        kinds = [e[0] for e in events]
+        bad = next((k[4:] for k in kinds if k.startswith("bad:")), None)
+        if bad:
+            bad = "unexpected write: %s" % bad
+        elif kinds != ["init", "end", "use", "reset"]:
+            bad = "block_flags events in program order are %s ; required init, (last block) |= flags_end, use, reset to flags" % kinds
+        else:
+            init, end, use, reset = events
+            loop = [c for c in use[1] if c[0] == "loop"]
+            if init[1] != () or len(loop) != 1 or use[1] != (loop[0],) or reset[1] != (loop[0],):
+                bad = "init must precede the block loop; use and reset must be unconditional inside it"
+            elif not (len(end[1]) == 2 and end[1][0] == loop[0] and end[1][1][0] == "if" and end[1][1][2] == 0 and end[1][1][1] in ("blocks == 1", "block + 1 == blocks")):
+                bad = "|= flags_end must sit under the last-block test of the loop (found under %s)" % (end[1],)
+        ctx.ob(bad is None, inst, where, bad or "init flags|flags_start ; last block |= flags_end ; use ; reset to flags")
+    ctx.floor("C kernels with a block-flag schedule", len(C_FLAG_KERNELS), 10)
+
+
+def _cshow_cond(e):
+    if not isinstance(e, tuple):
+        return str(e)
+    while e[0] == "cast":
+        e = e[1]
+    if e[0] == "bin":
+        return "%s %s %s" % (_cshow_cond(e[2]), e[1], _cshow_cond(e[3]))
+    return _cshow(e)
+
+
+# ------------------------------------------------------------------ ST: driver stage strides ----
+C_DRIVERS = [("c/blake3_portable.c", (), "blake3_hash_many_portable", "hash"), ("c/blake3_sse2.c", ("-msse2",), "blake3_hash_many_sse2", "hash"),
+             ("c/blake3_sse41.c", ("-msse4.1",), "blake3_hash_many_sse41", "hash"), ("c/blake3_avx2.c", ("-mavx2",), "blake3_hash_many_avx2", "hash"),
+             ("c/blake3_avx512.c", ("-mavx512f", "-mavx512vl"), "blake3_hash_many_avx512", "hash"),
+             ("c/blake3_avx512.c", ("-mavx512f", "-mavx512vl"), "blake3_xof_many_avx512", "xof")]
+
+
+def _width_of(callee):
+    m = re.search(r"hash(\d+)_|xof(\d+)_", callee)
+    if m:
+        return int(m.group(1) or m.group(2))
+    if callee.startswith("hash_one_") or callee.startswith("blake3_compress_xof_"):
+        return 1
+    return None
+
+
+def rule_ST_c(ctx):
+    import r_cbudget
+    norm = r_cbudget.norm
+    nstages = 0
+    for path, mflags, fname, kind in C_DRIVERS:
+        t = _rc.tu(path, (), extra_args=mflags, filt=fname)
+        f = t.funcs.get(fname)
+        if f is None:
+            raise MissingAnchor("%s in %s" % (fname, path))
+        where = "%s:%s" % (path, f["line"])
+        stages = [s for s in f["body"] if s[0] == "loop"]
+        V0 = lambda n: ("var", n)
+        full = [V0(n) for n in ("inputs", "num_inputs", "blocks", "key", "counter", "increment_counter", "flags", "flags_start", "flags_end", "out")]
+        deleg = [s for s in f["body"] if s[0] == "expr" and s[1][0] == "call" and isinstance(s[1][1], str) and s[1][1].startswith("blake3_hash_many_")
+                 and [norm(a) for a in s[1][2]] == full and s is f["body"][-1]]
+        others = [s for s in f["body"] if s[0] not in ("loop", "decl") and s not in deleg]
+        rem = "num_inputs" if kind == "hash" else "outblocks"
+        unit = 32 if kind == "hash" else 64
+        ctx.ob(bool(stages) and not others, "driver-shape:%s" % fname, where, "%d stage loop(s), %d other top-level statement(s)" % (len(stages), len(others)))
+        prev = None
+        for s in stages:
+            body = [x for x in s if isinstance(x, list)][0]
+            calls = [x[1] for x in body if x[0] == "expr" and x[1][0] == "call" and isinstance(x[1][1], str)]
+            bad = None
+            if len(calls) != 1 or _width_of(calls[0][1]) is None:
+                ctx.ob(False, "driver-stage:%s:?" % fname, where, "stage without exactly one kernel call of known width: %s" % [c[1] for c in calls])
+                continue
+            N = _width_of(calls[0][1])
+            nstages += 1
+            inst = "driver-stage:%s:%s" % (fname, calls[0][1])
+            cond = norm(s[2])
+            okc = cond == ("bin", ">=", ("var", rem), ("int", N)) or (N == 1 and cond == ("bin", ">", ("var", rem), ("int", 0)))
+            if not okc:
+                bad = "loop condition %s ; required %s >= %d" % (_cshow_cond(s[2]), rem, N)
+            if prev is not None and N >= prev and bad is None:
+                bad = "stage widths must strictly decrease (%d after %d)" % (N, prev)
+            prev = N
+            ups = {}
+            for x in body:
+                if x[0] == "assign" and x[2][0] == "var":
+                    ups.setdefault(x[2][1], []).append((x[1], norm(x[3]), False))
+                elif x[0] == "if":
+                    sub = [y for y in x if isinstance(y, list)]
+                    for y in sub[0]:
+                        if y[0] == "assign" and y[2][0] == "var":
+                            ups.setdefault(y[2][1], []).append((y[1], norm(y[3]), norm(x[1])))
+            want = {rem: ("-=", ("int", N), False), "counter": ("+=", ("int", N), ("var", "increment_counter") if kind == "hash" else False)}
+            if kind == "hash":
+                want["inputs"] = ("+=", ("int", N), False)
+            for v, w in want.items():
+                if bad is None and ups.get(v) != [w]:
+                    bad = "%s is updated as %s ; required %s %d%s" % (v, ups.get(v), w[0], N, " under if (increment_counter)" if w[2] else "")
+            if bad is None:
+                o = ups.get("out", [])
+                adv = None
+                if len(o) == 1 and o[0][2] is False:
+                    op, e, _ = o[0]
+                    if op == "+=" and e[0] == "int":
+                        adv = e[1]
+                    elif op == "=" and e[0] == "un" and e[1] == "&" and e[2][0] == "index" and e[2][1] == ("var", "out") and e[2][2][0] == "int":
+                        adv = e[2][2][1]
+                if adv != N * unit:
+                    bad = "out advances by %s bytes per stage iteration ; the kernel writes %d x %d = %d" % (adv if adv is not None else [x[:2] for x in o], N, unit, N * unit)
+            if bad is None:
+                a = [norm(x) for x in calls[0][2]]
+                V = lambda n: ("var", n)
+                if kind == "hash":
+                    first = V("inputs") if N > 1 or not calls[0][1].startswith("hash_one") else ("index", V("inputs"), ("int", 0))
+                    exp = [first, V("blocks"), V("key"), V("counter")] + ([V("increment_counter")] if not calls[0][1].startswith("hash_one") else []) + [V("flags"), V("flags_start"), V("flags_end"), V("out")]
+                else:
+                    exp = [V("cv"), V("block"), V("block_len"), V("counter"), V("flags"), V("out")]
+                if a != exp:
+                    bad = "kernel arguments (%s) are not the driver's cursor variables in prototype order" % ", ".join(_cshow(x) for x in calls[0][2])
+            ctx.ob(bad is None, inst, where, bad or "width %d: %s -= %d, counter += %d%s, out += %d" % (N, rem, N, N, " (if increment_counter)" if kind == "hash" else "", N * unit))
+        if stages:
+            last_body = [x for x in stages[-1] if isinstance(x, list)][0]
+            lc = [x[1] for x in last_body if x[0] == "expr" and x[1][0] == "call"]
+            ctx.ob(bool(deleg) or (bool(lc) and _width_of(lc[0][1]) == 1), "driver-ends-with-width-1:%s" % fname, where,
+                   "the remainder is delegated to %s with every cursor passed through" % deleg[0][1][1] if deleg else "the last stage handles single items (so that any count is consumed)")
+    ctx.floor("C driver stages", nstages, 14)
+
+
+def rule_ST_rust(ctx, F):
+    """Rust hash_many drivers (sse2/sse41/avx2): the wide stage passes the cursors through to hashN, whose N is DEGREE,
+    and advances inputs by DEGREE, out by DEGREE*OUT_LEN and the counter by DEGREE under increment_counter.yes()"""
+    n = 0
+    for mod, wide in (("sse2", "hash4"), ("sse41", "hash4"), ("avx2", "hash8")):
+        fn = F.fn("%s::hash_many" % mod)
+        if fn is None:
+            continue
+        n += 1
+        N = int(wide[4:])
+        inst = "driver-stage:%s::hash_many:%s" % (mod, wide)
+        arg = {fn.names.get(i): i for i in range(1, fn.argc + 1)}
+        loc = {nm: [i for i in range(len(fn.locals)) if fn.names.get(i) == nm][0] for nm in ("inputs", "counter", "out")}
+        PH = {nm: ("phi", loc[nm], nm) for nm in loc}
+        A = lambda nm: ("arg", arg[nm], nm)
+        DEG = ("const", "%s::DEGREE" % mod, N)
+        bad = None
+        consts = [c for c in F.consts.values() if c.get("path", "").endswith("%s::DEGREE" % mod)] if hasattr(F, "consts") and isinstance(F.consts, dict) else []
+        calls = [(b, val(fn.expr_call(t))) for b, t in fn.calls() if callee_name(t["callee"]) == "%s::%s" % (mod, wide)]
+        if len(calls) != 1:
+            bad = "%d call(s) to %s" % (len(calls), wide)
+        else:
+            a = calls[0][1][2]
+
+            def is_deg(e, mul=1):
+                return e[0] == "const" and e[2] == N * mul or (mul != 1 and e[0] == "bin" and e[1] == "Mul" and {e[2][2], e[3][2]} == {N, 32})
+            ok_in = find_sub(a[0], PH["inputs"]) is not None and a[0][0] == "cast"
+            ok_mid = a[2] == A("key") and a[3] == PH["counter"] and a[4] == A("increment_counter") and a[5] == A("flags") and a[6] == A("flags_start") and a[7] == A("flags_end")
+            ok_out = find_sub(a[8], PH["out"]) is not None
+            if not (ok_in and ok_mid and ok_out):
+                bad = "%s is called with %s ; required the driver's cursors in prototype order" % (wide, show(calls[0][1])[:160])
+        if bad is None:
+            want = {"inputs": lambda e: e[0] == "call" and e[2][0] == PH["inputs"] and e[2][1][0] == "adt" and e[2][1][1].endswith("RangeFrom") and e[2][1][4][0][0] == "const" and e[2][1][4][0][2] == N,
+                    "out": lambda e: e[0] == "call" and e[2][0] == PH["out"] and e[2][1][0] == "adt" and e[2][1][1].endswith("RangeFrom") and _const_val(e[2][1][4][0]) == N * 32,
+                    "counter": lambda e: e[0] == "bin" and e[1] == "Add" and e[2] == PH["counter"] and _const_val(e[3]) in (N, 1)}
+            for nm, pred in want.items():
+                defs = local_defs_with_guards(fn, loc[nm])
+                wide_defs = [(b, gs, e) for b, gs, e in defs if not (nm == "counter" and _const_val(e[3] if e[0] == "bin" else ("?",)) == 1 and N != 1)]
+                if nm == "counter":
+                    wide_defs = [(b, gs, e) for b, gs, e in defs if e[0] == "bin" and _const_val(e[3]) == N]
+                    if len(wide_defs) != 1 or not any(c[0] == "call" and c[1] == "IncrementCounter::yes" and tr is True for c, tr in wide_defs[0][1]):
+                        bad = "counter updates %s ; required counter += %d under increment_counter.yes()" % ([show(e)[:60] for b, gs, e in defs], N)
+                        break
+                    continue
+                if len(defs) != 1 or not pred(defs[0][2]):
+                    bad = "%s is advanced as %s ; required by %d" % (nm, [show(e)[:90] for b, gs, e in defs], N if nm == "inputs" else N * 32)
+                    break
+        ctx.ob(bad is None, inst, fn.loc, bad or "width %d: inputs = &inputs[%d..], out = &mut out[%d..], counter += %d under increment_counter.yes()" % (N, N, N * 32, N))
+    if F.cfg_flavour() == "pure":
+        ctx.floor("Rust hash_many driver stages", n, 3)
+
+
+def _const_val(e):
+    if not isinstance(e, tuple):
+        return None
+    if e[0] == "const":
+        return e[2]
+    if e[0] == "cast":
+        return _const_val(e[1])
+    if e[0] == "bin" and e[1] in ("Mul", "Add"):
+        a, b = _const_val(e[2]), _const_val(e[3])
+        if a is not None and b is not None:
+            return a * b if e[1] == "Mul" else a + b
+    return None
